@@ -182,18 +182,18 @@ def native_replay_race(pkgkey, cases, case_timeout_ms=60000, files=None):
     return out
 
 
-def native_replay(pkgkey, cases, case_timeout_ms=10000, files=None):
+def native_replay(pkgkey, cases, case_timeout_ms=10000, files=None, race=True):
     """Runs the cases natively against the real build. Returns a list of
     result dicts (same order) or raises RuntimeError on build failure."""
     if not cases:
         return []
-    if any(is_race_case(c) for c in cases):
+    if race and any(is_race_case(c) for c in cases):
         res = [None] * len(cases)
         ri = [i for i, c in enumerate(cases) if is_race_case(c)]
         oi = [i for i, c in enumerate(cases) if not is_race_case(c)]
         for i, r in zip(ri, native_replay_race(pkgkey, [cases[i] for i in ri], files=files)):
             res[i] = r
-        for i, r in zip(oi, native_replay(pkgkey, [cases[i] for i in oi], case_timeout_ms, files=files)):
+        for i, r in zip(oi, native_replay(pkgkey, [cases[i] for i in oi], case_timeout_ms, files=files, race=False)):
             res[i] = r
         return res
     pkgdir, _ = PKGS[pkgkey]
